@@ -53,34 +53,73 @@ def exc_locus(exc):
     return "%s:%s" % (where, type(exc).__name__)
 
 
+_COLL = {
+    "Bin": {"values": ("list", "values:type"), "underflow": ("frag", "underflow:type"),
+            "overflow": ("frag", "overflow:type"), "nanflow": ("frag", "nanflow:type")},
+    "SparselyBin": {"bins": ("map", "bins:type"), "nanflow": ("frag", "nanflow:type")},
+    "CentrallyBin": {"bins": ("wlist", "bins:type"), "nanflow": ("frag", "nanflow:type")},
+    "IrregularlyBin": {"bins": ("wlist", "bins:type"), "nanflow": ("frag", "nanflow:type")},
+    "Stack": {"bins": ("wlist", "bins:type"), "nanflow": ("frag", "nanflow:type")},
+    "Categorize": {"bins": ("map", "bins:type")},
+    "Fraction": {"numerator": ("frag", "sub:type"), "denominator": ("frag", "sub:type")},
+    "Select": {"data": ("frag", "sub:type")},
+    "Label": {"data": ("map", "sub:type")},
+    "Index": {"data": ("list", "sub:type")},
+    "UntypedLabel": {"data": ("tmap", None)},
+    "Branch": {"data": ("tlist", None)},
+}
+
+
 def doc_locus(doc, path):
-    """Type of the deepest node on `path` in a toJson document, plus the final field: 'Sum.sum'."""
+    """'<Type of the deepest node owning the differing field>.<field>' for a path into a toJson document."""
     parts = [p for p in path.split("/") if p]
-    cur, typ = doc, None
-    field = parts[-1] if parts else ""
-    for p in parts:
-        if isinstance(cur, dict):
-            if "type" in cur and "data" in cur and p == "data" and isinstance(cur["type"], str):
-                typ = cur["type"]
-            elif p + ":type" in cur:
-                typ = cur[p + ":type"]
-            elif p in ("numerator", "denominator") and "sub:type" in cur:
-                typ = cur["sub:type"]
-            elif p == "data" and "sub:type" in cur:
-                typ = cur["sub:type"]
-            if p not in cur:
+    try:
+        if not parts or parts[0] != "data":
+            return "header.%s" % (parts[0] if parts else "")
+        typ, cur = doc["type"], doc["data"]
+        i = 1
+        field = "data"
+        while i < len(parts):
+            p = parts[i]
+            field = p
+            kinds = _COLL.get(typ, {})
+            if not isinstance(cur, dict) or p not in kinds or p not in cur:
                 break
-            cur = cur[p]
-        elif isinstance(cur, (list, tuple)):
-            try:
-                cur = cur[int(p)]
-            except (ValueError, IndexError):
+            kind, tkey = kinds[p]
+            if kind == "frag":
+                typ, cur = cur[tkey], cur[p]
+                i += 1
+                field = "(whole)"
+                continue
+            if i + 1 >= len(parts):
                 break
-        else:
-            break
-    if field.lstrip("-").isdigit() and len(parts) > 1:
-        field = parts[-2]
-    return "%s.%s" % (typ, field)
+            k = parts[i + 1]
+            coll = cur[p]
+            elem = coll[int(k)] if isinstance(coll, (list, tuple)) else coll["" if k == "''" else k]
+            if kind in ("list", "map"):
+                typ, cur = cur[tkey], elem
+                i += 2
+                field = "(whole)"
+            elif kind == "wlist":
+                if i + 2 < len(parts) and parts[i + 2] == "data":
+                    typ, cur = cur[tkey], elem["data"]
+                    i += 3
+                    field = "(whole)"
+                else:
+                    field = p + "." + (parts[i + 2] if i + 2 < len(parts) else "element")
+                    break
+            else:  # tmap / tlist
+                if i + 2 < len(parts) and parts[i + 2] == "data":
+                    typ, cur = elem["type"], elem["data"]
+                    i += 3
+                    field = "(whole)"
+                else:
+                    field = p + "." + (parts[i + 2] if i + 2 < len(parts) else "element")
+                    break
+        return "%s.%s" % (typ, field)
+    except Exception:
+        last = [p for p in parts if not p.lstrip("-").isdigit()]
+        return "?.%s" % (last[-1] if last else "")
 
 
 # ------------------------------------------------------------------ parallel map
@@ -244,6 +283,11 @@ def finish(prop, tier, seed, acc, t0, coverage, assumptions, confirm=True):
                                                                               acc.vcount[v["sig"]]))
     code = 0
     nondet = False
+    d = os.path.join(REPLAY_DIR, prop)
+    if os.path.isdir(d):
+        for f in os.listdir(d):
+            if f.endswith(".json"):
+                os.unlink(os.path.join(d, f))
     for i, v in enumerate(new):
         path = write_replay(v)
         if confirm and i < 4 and v.get("args") is not None:
